@@ -24,7 +24,9 @@ RULE = ('programs rendered from trees of ops (bind by assignment / for / with / 
         'builtin len; every bound value is a unique V(site). small cases: all shapes of nesting '
         'depth <= 2 (module binding x def/class with its binding pattern x inner def/class/lambda/'
         'comprehension with its pattern), enumerated (thorough: all, exhaustive; quick: every 3rd); '
-        'random cases: trees to depth 4. The program is executed; for each use whose read succeeded, '
+        'class chains: 2-3 directly nested classes (optionally in a function) x which class bodies bind '
+        'the name x innermost def / lambda / comprehension / parameter default / plain use, enumerated '
+        '(quick: every 3rd); random cases: trees to depth 4. The program is executed; for each use whose read succeeded, '
         'goto() must return only definitions spelled like the use that belong to the scope owning '
         'the site whose value was read (a global/nonlocal declaration of the owning chain is an '
         'accepted landing); in straight-line single-scope code exactly that assignment. '
@@ -45,6 +47,12 @@ def plan(tier, seed):
     specs = []
     for b in range(0, len(idx), BATCH):
         specs.append({'id': 'c03s-%d' % (b // BATCH), 'mode': 'small', 'indexes': idx[b:b + BATCH]})
+    chains = list(scopes.class_chain_shapes())
+    cidx = list(range(len(chains)))
+    if tier == 'quick':
+        cidx = cidx[seed % 3::3]
+    for b in range(0, len(cidx), BATCH):
+        specs.append({'id': 'c03c-%d' % (b // BATCH), 'mode': 'chain', 'indexes': cidx[b:b + BATCH]})
     # witnesses of the listed findings M1..M9, so that each is reported while it still fails
     specs.append({'id': 'c03w', 'mode': 'witness'})
     n_random = 400 if tier == 'quick' else 6000
@@ -88,6 +96,11 @@ def tag_mechanism(prog, uscope, ident, got_owner, landing=None, use_line=None):
             break
     if uscope.kind in ('comp', 'lambda') and uscope.parent.kind == 'class' and got_owner is uscope.parent:
         return 'M4_comprehension_or_lambda_in_class_body_sees_class_scope'
+    if uscope.kind in ('comp', 'lambda') and uscope.parent.kind == 'class' and got_owner.kind == 'class' \
+            and got_owner in uscope.parent.chain()[1:]:
+        # M4 and M1 composed: the comprehension is resolved like the body of the class it is
+        # written in, and that class body sees the enclosing class
+        return 'M10_comprehension_in_nested_class_sees_outer_class_scope'
     if uscope.kind in ('def', 'lambda', 'comp') and got_owner.kind == 'class' and got_owner in anc:
         return 'M5_function_body_sees_enclosing_class_scope'
     return None
@@ -237,10 +250,14 @@ def run(spec):
             ('M8', [('def', 'b', None, [('bind', 'b', 'for'), ('default_use', 'b', 'lambda'),
                                         ('bind', 'b', 'with')])]),
             ('M9', [A, ('class', [A, ('default_use', 'a', 'lambda')])]),
+            ('M10', [A, ('class', [A, ('class', [('comp', 'a', 'b')])])]),
         ]
     elif spec['mode'] == 'small':
         shapes = list(scopes.small_shapes())
         items = [('shape-%d' % i, shapes[i]) for i in spec['indexes']]
+    elif spec['mode'] == 'chain':
+        shapes = list(scopes.class_chain_shapes())
+        items = [('chain-%d' % i, shapes[i]) for i in spec['indexes']]
     else:
         items = []
         for sd in spec['seeds']:
@@ -264,6 +281,9 @@ def run(spec):
 def finalize(specs, results, ctx):
     shapes = sum(len(s.get('indexes', [])) for s in specs if s['mode'] == 'small')
     total = len(list(scopes.small_shapes()))
+    chains = sum(len(s.get('indexes', [])) for s in specs if s['mode'] == 'chain')
     return {'coverage': {'small_shapes_enumerated': shapes, 'small_shapes_total': total,
+                         'class_chain_shapes_enumerated': chains,
+                         'class_chain_shapes_total': len(list(scopes.class_chain_shapes())),
                          'exhaustive': shapes == total,
                          'programs': sum(r.get('programs', 0) for r in results)}}
